@@ -25,6 +25,49 @@ claim("C01", "proof",
       "Coq proof (fold induction over the tape) + extraction-based differential correspondence",
       "DESIGN.md section 6, C01")
 
+claim("C03", "proof",
+      "PARTIAL.  Translator + Coq theorems for the simplex / hybrid path: translate/gen_tables.py re-reads tet_table from "
+      "simplex_mesher.cpp on every run; for that table, marching tetrahedra over ANY tetrahedral complex whose surface-carrying "
+      "faces are matched by exactly one oppositely oriented copy, and ANY inside/outside assignment, gives a mesh in which every "
+      "directed edge is used as often as its reverse (watertight, consistently oriented); if no two tets share their vertex "
+      "set it is edge-manifold; the local boundary lemma holds for every tet without hypotheses; non-vacuity (boundary of the "
+      "4-simplex) and necessity of the extra hypothesis are kernel-checked.  NOT proved: that libfive's own complex (cells of "
+      "different octree levels, minimal-level subspace vertices, globally unique indices) satisfies that hypothesis, and the "
+      "dual-contouring mesher (per-cell patch tables, minimal-edge rule, collapse tests).  Those are decided by the oracle: "
+      "Mesh::render of random closed CSG solids (rotated primitives, sharp and smooth) x 3 algorithms x workers 1..16 x "
+      "resolutions x merging on/off: edge balance, no repeated vertex, valid indices, no unreferenced vertex, edge-manifold "
+      "for simplex / hybrid.",
+      "Trusted: Coq kernel (no axioms); translate/gen_tables.py; harness audit_mesh; OS-sampled interleavings (no schedule "
+      "perturbation hook was added for this property).",
+      "source-to-Coq table translation + Coq proof (finite sweep over the table + face-pairing argument); runtime mesh audit",
+      "DESIGN.md section 6, C03")
+
+claim("C04", "proof",
+      "PARTIAL.  Coq theorems for the pruning logic only: under sound interval evaluation (C02) a cell classified EMPTY / "
+      "FILLED contains no zero of the field and every point of it has the classified sign, so all surface lies in AMBIGUOUS "
+      "cells (also through a volume tree); vertex containment for simplex / hybrid is C19.  The separation statement itself "
+      "(winding number 1 inside / 0 outside away from the surface; vertices in the region and near the zero set) is decided "
+      "by the oracle on the implementation: generalised winding numbers (solid-angle sums) at random points further than 1.5 "
+      "feature sizes from the surface, vertex containment and |field| at vertices, over random closed 1-Lipschitz solids x 3 "
+      "algorithms x workers x resolutions, with and without an acceleration volume tree.",
+      "Trusted: Coq kernel + classical reals; harness audit_mesh (solid angles in doubles); the oracle's thresholds (1.5 / 3 / "
+      "0.02 feature sizes).  Known findings: unbounded dual-contouring vertices (outside:dc, offsurface:dc).",
+      "Coq proof (pruning soundness over the reals) + winding-number oracle",
+      "DESIGN.md section 6, C04")
+
+claim("C10", "proof",
+      "Coq theorems for Contours::collect (the welding of emitted segments into polylines, modelled with the code's two map "
+      "tables, chain growth and welding walk): for EVERY segment soup and emission order the consecutive pairs of the output "
+      "are a permutation of the input (nothing lost, duplicated or invented); every polyline has a segment and follows input "
+      "segments; on a disjoint union of directed cycles every polyline is closed; the hypothesis is shown tight.  Tie: the "
+      "extracted model and the implementation weld 1500+ random soups (cycles, open paths, branching, self-loops) "
+      "identically.  Oracle (not proved: that the marching-squares pass emits cycles winding around the solid): "
+      "Contours::render of random 2D solids and slices of 3D solids: contours closed, polygon winding 0 / one common "
+      "+-1, vertices in the region and within 2 feature sizes of the zero set.",
+      "Trusted: Coq kernel (no axioms); extraction; harness collect / contour commands.",
+      "Coq proof (map/chain invariants, pigeonhole on the welding walk) + extraction-based correspondence",
+      "DESIGN.md section 6, C10")
+
 claim("C05", "proof",
       "Coq theorems about the line-by-line model of Tape::push (parametric in the number type, so bit-identity holds "
       "for binary32); tie: every push the implementation performs (nested interval pushes, point pushes) is replayed "
@@ -103,8 +146,12 @@ HOOK_COMMITS.append("64013ba")   # named schedule points in the mesh render (C11
 claim("C16", "proof",
       "Coq theorems: Deck construction and tape evaluation with ORACLE clauses compute the denotation when every oracle clause "
       "answers with its node's value (generalises C01's deck theorem to oracle leaves); the recursive object structure of "
-      "TransformedOracle (one evaluator per coordinate tree + underlying oracle, any nesting) computes the composition with "
-      "the coordinate maps when the coordinate trees are variable-free, with a kernel-checked refutation for free variables; "
+      "TransformedOracle (one evaluator per coordinate tree, each optimising its tree first as Deck::Deck does, + underlying "
+      "oracle, any nesting) computes the composition with the coordinate maps when the coordinate trees depend on x,y,z only "
+      "(kernel-checked refutation for free variables) and `opt_ok` holds for the trees involved: that Tree::optimized preserves "
+      "the value and yields plain nodes / oracle leaves.  `opt_ok` is a THEOREM for oracle-free trees (C01/C07) and for the value "
+      "part of trees without lazy remaps; for trees that contain oracles its purity part is a hypothesis of the theorem (the "
+      "optimiser purity development excludes oracle nodes), covered by the correspondence run instead; "
       "wrapping: any context (operations, remap chains) over an oracle that computes e denotes the same function as the context "
       "over e; the Jacobian product of evalDerivs is the gradient of the composite (Coquelicot chain rule in three variables); "
       "interval composition is sound and carries the maybe-NaN flag of the coordinate ranges; running the coordinate evaluators "
@@ -141,6 +188,21 @@ claim("C09", "proof",
       "frame lemma (each region reads and writes only its own pixels).",
       "Coq proof (induction on fuel / view splitting, frame lemmas) + differential split correspondence + brute-force oracle",
       "DESIGN.md section 6, C09")
+
+claim("C14", "proof",
+      "PARTIAL.  Coq theorems for the reference-count protocol under ALL interleavings of any number of threads (each atomic "
+      "read-modify-write is one step; threads only copy / destroy references they hold): no operation ever touches a freed "
+      "node, the counter always equals the number of references held (at every prefix of every interleaving), the node is "
+      "freed at most once, exactly when everything was released, by the last decrement of the interleaving; the non-atomic "
+      "variant (load, then store) is refuted by a concrete interleaving with a use-after-free.  The absence of OTHER shared "
+      "mutable state (static singletons, lazily filled tables, per-call canonical maps) and 'every thread observes the "
+      "sequential result' are decided by the oracle: harness/threads.cpp under ThreadSanitizer, 2..16 threads copying, moving, "
+      "destroying, printing, optimising, flattening, remapping, serialising shared DAGs and building evaluators from them, "
+      "half of the scenarios cold (nothing initialised before the threads start); every TSan report is a violation.",
+      "Trusted: Coq kernel (no axioms); the C++ memory model reading 'atomic RMW = one indivisible step'; ThreadSanitizer on "
+      "OS-sampled schedules; harness/threads.cpp.",
+      "Coq proof (invariant over all shuffles) + ThreadSanitizer runs",
+      "DESIGN.md section 6, C14")
 
 claim("C15", "proof",
       "Coq theorems about the evaluators' reused scratch state (rows = total functions, stale = arbitrary; any number / "
